@@ -319,7 +319,9 @@ def probe_bessel_strict_c17(run_):
 def shard(shard, nshards, n, seed):
     res = ShardResult()
     with scratch(f"vf-c19-{shard}-") as wd:
-        sup = st.one_of(strategies.form_specs(P_SUP), strategies.form_specs(P_SUP), strategies.expr_specs())
+        # (the third family: cell-integral forms over two meshes of one cell type with several rules per subdomain)
+        sup = st.one_of(strategies.form_specs(P_SUP), strategies.form_specs(P_SUP), strategies.expr_specs(),
+                        strategies.form_specs(dict(P_SUP, measures=["dx"], p_mesh2=0.7, max_integrals=3)))
         drive(sup, lambda s: evaluate_supported(s, wd), n, (PROP, seed, shard, "sup"), res, shrink_calls=30)
         drive(wild_cases(), lambda c: evaluate_supported(c["spec"], wd, options=c["options"], wild=c["spec"].get("_wild")), n, (PROP, seed, shard, "wild"), res, shrink_calls=30)
     return res
